@@ -82,3 +82,89 @@ Proof.
     destruct t as [|p q]; try (destruct (es p <? W)); cbn [is_tomb et ek es ev andb]; rewrite ?NT; cbn [andb];
     repeat split; try reflexivity.
 Qed.
+
+(* ---- point reads agree with scans when the sources are ordered by recency ----
+   A point read looks through the sources in order (active memtable, sealed memtables newest first, tables) and returns
+   the first hit; a scan merges everything and lets the highest seqno win.  They agree on every key as long as, per key,
+   an earlier source never holds an older version than a later one.  Replaying journal records that the tables already
+   cover broke exactly this premise (defects repaired by 3ed2a5b and dc3abc4). *)
+Lemma best_app k I a : forall b acc, best k I (a ++ b) acc = best k I b (best k I a acc).
+Proof.
+  induction a as [|e r IH]; intros b acc; cbn [app best]; [reflexivity|].
+  destruct (list_eqb (ek e) k && (es e <? I)); [destruct acc as [x|]; [destruct (es x <? es e)|]|]; apply IH.
+Qed.
+
+Lemma best_acc_wins_key k I l a :
+  (forall e, In e l -> list_eqb (ek e) k = true -> es e < I -> es e <= es a) -> best k I l (Some a) = Some a.
+Proof.
+  induction l as [|e r IH]; intros H; cbn [best]; [reflexivity|].
+  destruct (list_eqb (ek e) k) eqn:K; cbn [andb].
+  - destruct (N.ltb_spec (es e) I) as [L|G].
+    + destruct (N.ltb_spec (es a) (es e)) as [L2|G2].
+      * specialize (H e (or_introl eq_refl) K L). lia.
+      * apply IH. intros x Hx. apply H. now right.
+    + apply IH. intros x Hx. apply H. now right.
+  - apply IH. intros x Hx. apply H. now right.
+Qed.
+
+Lemma best_none_in k I l e : best k I l None = Some e -> In e l /\ list_eqb (ek e) k = true /\ es e < I.
+Proof.
+  assert (G : forall l acc e, best k I l acc = Some e ->
+              (acc = Some e \/ (In e l /\ list_eqb (ek e) k = true /\ es e < I))).
+  { clear l e. induction l as [|x r IH]; intros acc e H; cbn [best] in H; [now left|].
+    destruct (list_eqb (ek x) k) eqn:K; cbn [andb] in H.
+    - destruct (N.ltb_spec (es x) I) as [L|G].
+      + destruct acc as [a|].
+        * destruct (es a <? es x).
+          -- destruct (IH _ _ H) as [E|[A B]]; [injection E as <-; right; repeat split; auto; now left|right; split; [now right|exact B]].
+          -- destruct (IH _ _ H) as [E|[A B]]; [now left|right; split; [now right|exact B]].
+        * destruct (IH _ _ H) as [E|[A B]]; [injection E as <-; right; repeat split; auto; now left|right; split; [now right|exact B]].
+      + destruct (IH _ _ H) as [E|[A B]]; [now left|right; split; [now right|exact B]].
+    - destruct (IH _ _ H) as [E|[A B]]; [now left|right; split; [now right|exact B]]. }
+  intros H. destruct (G l None e H) as [E|R]; [discriminate|exact R].
+Qed.
+
+(* earlier sources are at least as new as later ones, per key, among the versions a read at I can see *)
+Fixpoint recency_ordered (k : bytes) (I : N) (srcs : list (list ent)) : Prop :=
+  match srcs with
+  | [] => True
+  | a :: r => (forall x y, In x a -> In y (concat r) -> list_eqb (ek x) k = true -> list_eqb (ek y) k = true ->
+                           es x < I -> es y < I -> es y <= es x) /\ recency_ordered k I r
+  end.
+
+Theorem first_hit_is_newest k I srcs :
+  recency_ordered k I srcs -> first_some (map (newest k I) srcs) = newest k I (concat srcs).
+Proof.
+  induction srcs as [|a r IH]; intros H; cbn [map concat]; [reflexivity|]. destruct H as [H1 H2].
+  assert (E : newest k I (a ++ concat r) = best k I (concat r) (newest k I a))
+    by (unfold newest; apply best_app).
+  rewrite E. unfold first_some. cbn [fold_right]. fold (first_some (map (newest k I) r)).
+  destruct (newest k I a) as [e|] eqn:N.
+  - symmetry. apply best_acc_wins_key. intros y Iy Ky Ly.
+    destruct (best_none_in _ _ _ _ N) as [Ie [Ke Le]]. apply (H1 e y); assumption.
+  - rewrite (IH H2). reflexivity.
+Qed.
+
+(* for a tree version: the point read returns what the scan shows for that key *)
+Theorem point_read_agrees_with_scan t v k I :
+  recency_ordered k I (mem_of t (v_active v) :: map (mem_of t) (v_sealed v) ++ [v_tables v]) ->
+  v_get_ent t v k I = newest k I (v_all t v).
+Proof.
+  intros H. unfold v_get_ent, v_all.
+  replace (newest k I (mem_of t (v_active v)) :: map (fun id => newest k I (mem_of t id)) (v_sealed v) ++ [newest k I (v_tables v)])
+    with (map (newest k I) (mem_of t (v_active v) :: map (mem_of t) (v_sealed v) ++ [v_tables v]))
+    by (cbn [map]; rewrite map_app, map_map; reflexivity).
+  rewrite first_hit_is_newest by exact H. f_equal. cbn [concat]. f_equal.
+  rewrite concat_app. cbn [concat]. rewrite app_nil_r. rewrite flat_map_concat_map. reflexivity.
+Qed.
+
+(* without the premise the two reads differ: an old version in the memtable in front of a newer one in the tables (what
+   replaying covered journal records produced) *)
+Definition shadow_tree : tree :=
+  {| mems := [ {| m_id := 0; m_ents := [mkEnt [107] 1 VValue [1]] |} ];
+     vers := [ {| v_seq := 3; v_active := 0; v_sealed := []; v_tables := [mkEnt [107] 2 VValue [2]] |} ];
+     next_mid := 1 |}.
+Lemma shadow_disagrees :
+  value_of (v_get_ent shadow_tree (latest shadow_tree) [107] 10) = Some [1] /\
+  value_of (newest [107] 10 (v_all shadow_tree (latest shadow_tree))) = Some [2].
+Proof. vm_compute. split; reflexivity. Qed.
